@@ -14,7 +14,9 @@ import (
 
 var alphabet = []byte{'/', '=', '-', '0', '7', 'a', 0xC3, 0xA9, '+'}
 
-var keys = []string{".name", ".fullname", "/gomaxprocs", "/a", "/", "/a=", "/0", "/-7", "k", "missing", "", ".config", ".unit"}
+var keys = []string{".name", ".fullname", "/gomaxprocs", "/a", "/", "/a=", "/0", "/-7", "k", "missing", "", ".config", ".unit",
+	// near-misses of the reserved spellings: ordinary keys
+	"/GOMAXPROCS", "/Gomaxprocs", "/gomaxprocs=", ".Name", ".NAME", ".fullName", "name", "/.name"}
 
 var excludes = [][]string{
 	{"/a"}, {".name"}, {"/gomaxprocs"}, {"/a", "/0", ".name"}, {"k", "/"}, {"/a="}, {"/gomaxprocs", "/a"},
@@ -223,7 +225,8 @@ func main() {
 		id++
 	}
 	// random longer names, biased to realistic shapes
-	words := []string{"Foo", "a", "a=1", "a=", "=", "gomaxprocs=4", "b=x-2", "0", "-7", "", "é", "a=b=c", "/"}
+	words := []string{"Foo", "a", "a=1", "a=", "=", "gomaxprocs=4", "b=x-2", "0", "-7", "", "é", "a=b=c", "/",
+		"GOMAXPROCS=2", "Gomaxprocs=3", "gomaxprocs==5", ".name=x", "GOMAXPROCS"}
 	n := hx.N(20000, 400000)
 	for i := 0; i < n; i++ {
 		var name []byte
